@@ -3,11 +3,77 @@
 `Storage.Load`'s version check, `loadFileCache`'s empty-cache rule, and the write-then-rename
 protocol of `renameio.WriteFile`.
 
-Opaque values (identifiers, names, rule texts, IP addresses and their binary form, time-zone
-names) are natural numbers and are carried unchanged, which is what the converters do with them.
-Core Lean only.
+Opaque values (identifiers, names, rule texts, time-zone names) are natural numbers and are carried
+unchanged, which is what the converters do with them.  IP addresses of devices (linked, dedicated)
+and of the custom blocking mode are NOT opaque: the cache stores their binary form
+(`netip.Addr.MarshalBinary` / `UnmarshalBinary`), modelled below with the zero address, the two
+address lengths and the IPv6 zone.  Core Lean only.
 -/
 namespace Agd.ProfileCache
+
+/-! ### `netip.Addr` and its binary form
+
+A byte is a natural number (the codec only moves bytes around). -/
+
+/-- `netip.Addr`: the zero value, an IPv4 address (4 bytes) or an IPv6 address (16 bytes; the
+IPv4-mapped ones are IPv6 addresses) with its zone; the empty zone is "no zone", as in `netip`. -/
+inductive Addr
+  | zero
+  | v4 (b : List Nat)
+  | v6 (b : List Nat) (zone : List Nat)
+deriving DecidableEq, Repr
+
+/-- The invariant of `netip.Addr`: 4 or 16 address bytes. -/
+def Addr.WF : Addr → Prop
+  | .zero => True
+  | .v4 b => b.length = 4
+  | .v6 b _ => b.length = 16
+
+instance (a : Addr) : Decidable a.WF := by
+  cases a <;> unfold Addr.WF <;> infer_instance
+
+/-- `netip.Addr.MarshalBinary`: nothing, 4 bytes, or 16 bytes followed by the zone. -/
+def Addr.marshal : Addr → List Nat
+  | .zero => []
+  | .v4 b => b
+  | .v6 b z => b ++ z
+
+/-- `(*netip.Addr).UnmarshalBinary` (`n == 0`, `n == 4`, `n == 16`, `n > 16`, else an error);
+`none` is the error. -/
+def Addr.unmarshal (b : List Nat) : Option Addr :=
+  if b.length = 0 then some .zero
+  else if b.length = 4 then some (.v4 b)
+  else if b.length = 16 then some (.v6 b [])
+  else if 16 < b.length then some (.v6 (b.take 16) (b.drop 16))
+  else none
+
+/-- `netip.Addr.AsSlice`: the address bytes WITHOUT the zone.  Not what the cache writes; it is
+here to state that the zone is part of the value the cache has to keep (`Props/C14.lean`). -/
+def Addr.asSlice : Addr → List Nat
+  | .zero => []
+  | .v4 b => b
+  | .v6 b _ => b
+
+/-- `agdprotobuf.ByteSlicesToIPs`: every element through `UnmarshalBinary`, the first error fails
+the whole list. -/
+def addrsFromPb : List (List Nat) → Option (List Addr)
+  | [] => some []
+  | b :: r =>
+    match Addr.unmarshal b, addrsFromPb r with
+    | some a, some as => some (a :: as)
+    | _, _ => none
+
+/-- `ipsToByteSlices`. -/
+def addrsToPb (l : List Addr) : List (List Nat) := l.map Addr.marshal
+
+/-- All elements of a list of fallible conversions, or the first failure (the `for … { if err != nil
+{ return nil, err } }` loops of `toInternal`). -/
+def optAll {α : Type} : List (Option α) → Option (List α)
+  | [] => some []
+  | x :: r =>
+    match x, optAll r with
+    | some a, some as => some (a :: as)
+    | _, _ => none
 
 /-! ### Internal side (`agd.Profile`, `agd.Device`, …) -/
 
@@ -28,10 +94,10 @@ deriving DecidableEq, Repr
 structure Device where
   auth : Auth
   id : Nat
-  linked : Nat
+  linked : Addr
   name : Nat
   human : Nat
-  dedicated : List Nat
+  dedicated : List Addr
   filtering : Bool
 deriving DecidableEq, Repr
 
@@ -62,7 +128,7 @@ structure AccessCfg where
 deriving DecidableEq, Repr
 
 inductive BlockingMode
-  | customIP (v4 v6 : List Nat)
+  | customIP (v4 v6 : List Addr)
   | nxdomain
   | nullIP
   | refused
@@ -138,11 +204,21 @@ deriving DecidableEq, Repr
 structure PbDevice where
   auth : Option PbAuth
   id : Nat
-  linked : Nat
+  /-- `bytes linked_ip` -/
+  linked : List Nat
   human : Nat
   name : Nat
-  dedicated : List Nat
+  /-- `repeated bytes dedicated_ips` -/
+  dedicated : List (List Nat)
   filtering : Bool
+deriving DecidableEq, Repr
+
+/-- The `blocking_mode` oneof; the custom IPs are `repeated bytes`. -/
+inductive PbBlockingMode
+  | customIP (v4 v6 : List (List Nat))
+  | nxdomain
+  | nullIP
+  | refused
 deriving DecidableEq, Repr
 
 structure PbDayIvl where
@@ -191,7 +267,7 @@ structure PbProfile where
   sbDangerous : Bool
   sbNewlyRegistered : Bool
   access : Option AccessCfg
-  blockingMode : BlockingMode
+  blockingMode : PbBlockingMode
   ratelimiter : Option PbRatelimiter
   id : Nat
   devIds : List Nat
@@ -226,9 +302,18 @@ def authToPb (a : Auth) : Option PbAuth :=
              | .nilHash => .unset }
   else none
 
+/-- `devicesToProtobuf`: the addresses through `ipToBytes` / `ipsToByteSlices`
+(`netip.Addr.MarshalBinary`). -/
 def deviceToPb (d : Device) : PbDevice :=
-  { auth := authToPb d.auth, id := d.id, linked := d.linked, human := d.human, name := d.name,
-    dedicated := d.dedicated, filtering := d.filtering }
+  { auth := authToPb d.auth, id := d.id, linked := d.linked.marshal, human := d.human, name := d.name,
+    dedicated := addrsToPb d.dedicated, filtering := d.filtering }
+
+/-- `blockingModeToProtobuf`. -/
+def bmToPb : BlockingMode → PbBlockingMode
+  | .customIP v4 v6 => .customIP (addrsToPb v4) (addrsToPb v6)
+  | .nxdomain => .nxdomain
+  | .nullIP => .nullIP
+  | .refused => .refused
 
 def dayToPb (i : DayIvl) : PbDayIvl := { start := i.start.toUInt32, stop := i.stop.toUInt32 }
 
@@ -255,7 +340,7 @@ def profileToPb (p : Profile) : PbProfile :=
     safeSearchGeneral := p.safeSearchGeneral, safeSearchYouTube := p.safeSearchYouTube,
     ruleListIds := p.ruleListIds, ruleListEnabled := p.ruleListEnabled,
     sbEnabled := p.sbEnabled, sbDangerous := p.sbDangerous, sbNewlyRegistered := p.sbNewlyRegistered,
-    access := p.access, blockingMode := p.blockingMode,
+    access := p.access, blockingMode := bmToPb p.blockingMode,
     ratelimiter := ratelimiterToPb p.ratelimiter, id := p.id, devIds := p.devIds,
     ttl := durationToPb p.ttl, autoDevices := p.autoDevices,
     blockChromePrefetch := p.blockChromePrefetch, blockFirefoxCanary := p.blockFirefoxCanary,
@@ -285,12 +370,27 @@ def authFromPbOld : Option PbAuth → Auth
                   | .unset => .nilHash
                   | .bcrypt h => .bcrypt h }
 
-def deviceFromPb (x : PbDevice) : Device :=
-  { auth := authFromPb x.auth, id := x.id, linked := x.linked, name := x.name, human := x.human,
-    dedicated := x.dedicated, filtering := x.filtering }
+/-- `(*Device).toInternal`: `UnmarshalBinary` for the linked IP, `ByteSlicesToIPs` for the
+dedicated ones; `none` is the error return (the whole cache is then unusable). -/
+def deviceFromPb (x : PbDevice) : Option Device :=
+  match Addr.unmarshal x.linked, addrsFromPb x.dedicated with
+  | some l, some de =>
+    some { auth := authFromPb x.auth, id := x.id, linked := l, name := x.name, human := x.human,
+           dedicated := de, filtering := x.filtering }
+  | _, _ => none
 
-def deviceFromPbOld (x : PbDevice) : Device :=
-  { deviceFromPb x with auth := authFromPbOld x.auth }
+def deviceFromPbOld (x : PbDevice) : Option Device :=
+  (deviceFromPb x).map fun d => { d with auth := authFromPbOld x.auth }
+
+/-- `blockingModeToInternal`. -/
+def bmFromPb : PbBlockingMode → Option BlockingMode
+  | .customIP v4 v6 =>
+    match addrsFromPb v4, addrsFromPb v6 with
+    | some a, some b => some (.customIP a b)
+    | _, _ => none
+  | .nxdomain => some .nxdomain
+  | .nullIP => some .nullIP
+  | .refused => some .refused
 
 def dayFromPb (x : PbDayIvl) : DayIvl := { start := x.start.toUInt16, stop := x.stop.toUInt16 }
 
@@ -308,7 +408,8 @@ def ratelimiterFromPb : Option PbRatelimiter → Ratelimiter
 produced by `durationpb.New` from an int64). -/
 def durationFromPb (x : PbDuration) : Int := x.secs * 1000000000 + x.nanos
 
-def profileFromPb (x : PbProfile) : Profile :=
+def profileFromPb (x : PbProfile) : Option Profile :=
+  (bmFromPb x.blockingMode).map fun bm =>
   { customId := x.customId, customUpdSec := x.customUpdSec, customUpdNsec := x.customUpdNsec,
     customRules := x.customRules, customEnabled := x.customEnabled,
     schedule := x.schedule.map scheduleFromPb, blockedServices := x.blockedServices,
@@ -316,16 +417,20 @@ def profileFromPb (x : PbProfile) : Profile :=
     safeSearchGeneral := x.safeSearchGeneral, safeSearchYouTube := x.safeSearchYouTube,
     ruleListIds := x.ruleListIds, ruleListEnabled := x.ruleListEnabled,
     sbEnabled := x.sbEnabled, sbDangerous := x.sbDangerous, sbNewlyRegistered := x.sbNewlyRegistered,
-    access := x.access, blockingMode := x.blockingMode,
+    access := x.access, blockingMode := bm,
     ratelimiter := ratelimiterFromPb x.ratelimiter, id := x.id, devIds := x.devIds,
     ttl := durationFromPb x.ttl, autoDevices := x.autoDevices,
     blockChromePrefetch := x.blockChromePrefetch, blockFirefoxCanary := x.blockFirefoxCanary,
     blockPrivateRelay := x.blockPrivateRelay, deleted := x.deleted, filtering := x.filtering,
     ipLog := x.ipLog, queryLog := x.queryLog }
 
-def fromPb (x : PbCache) : Cache :=
-  { syncSec := x.syncSec, syncNsec := x.syncNsec, profiles := x.profiles.map profileFromPb,
-    devices := x.devices.map deviceFromPb, version := x.version }
+/-- `toInternal` of the whole cache; `none` if any profile or device fails to convert. -/
+def fromPb (x : PbCache) : Option Cache :=
+  match optAll (x.profiles.map profileFromPb), optAll (x.devices.map deviceFromPb) with
+  | some ps, some ds =>
+    some { syncSec := x.syncSec, syncNsec := x.syncNsec, profiles := ps, devices := ds,
+           version := x.version }
+  | _, _ => none
 
 /-! ### `backendpb`: where the internal values come from
 
